@@ -415,7 +415,33 @@ func runC03(c *ctx) {
 			c03Eval(c, ref.PatchLen(b), "random/item-soup", true)
 		}
 	})
-	c.Required = []string{"fault-seeds", "ref-accepts/valid/longer-than-16MiB", "ref-accepts/valid/nonminimal-single", "ref-rejects/truncate/patched", "ref-rejects/append/patched", "ref-rejects/control/with-text", "ref-accepts/set/length", "ref-rejects/set/length", "ref-rejects/set/format", "ref-accepts/random/item-soup"}
+	// every nesting depth up to 70 (thorough 140): well-formed nests with distinct leaves before and after the nested list
+	// at every level, the same nest with one item left over behind it, with one item missing at the innermost level,
+	// and with non-minimal list headers (a decoder that keeps its own stack of open lists shows itself when it grows)
+	for depth := 1; depth <= c.pick(70, 140); depth++ {
+		for shape := 0; shape < 3; shape++ {
+			for _, nl := range []int{1, 3} {
+				body := []byte{0x41, 0x02, 'o', 'k'}
+				for i := 0; i < depth; i++ {
+					var inner []byte
+					n := 1
+					if shape >= 1 {
+						inner = append(inner, 0xA9, 0x02, byte(i>>8), byte(i))
+						n++
+					}
+					inner = append(inner, body...)
+					if shape == 2 {
+						inner = append(inner, 0x69, 0x02, 0xFF, byte(i), 0x01, 0x00)
+						n += 2
+					}
+					body = append(ref.HeaderN(ref.L, n, nl), inner...)
+				}
+				c03Eval(c, wrapMsg(body), "valid/nest-with-siblings", true)
+				c03Eval(c, wrapMsg(append(append([]byte{}, body...), 0xA5, 0x01, 0x07)), "append/item-behind-a-nest", true)
+			}
+		}
+	}
+	c.Required = []string{"fault-seeds", "ref-accepts/valid/nest-with-siblings", "ref-rejects/append/item-behind-a-nest", "ref-accepts/valid/longer-than-16MiB", "ref-accepts/valid/nonminimal-single", "ref-rejects/truncate/patched", "ref-rejects/append/patched", "ref-rejects/control/with-text", "ref-accepts/set/length", "ref-rejects/set/length", "ref-rejects/set/format", "ref-accepts/random/item-soup"}
 }
 
 func replayC03(c *ctx, raw json.RawMessage) {
